@@ -296,6 +296,21 @@ def point_check(spec, z, call, m=None, ztype=None):
         err = float(np.abs(r - want).max()) if r.shape == want.shape else None
         return ("rhs-" + CLS[call], "%s right-hand side differs from f / J*S+G / J*S0 in the documented layout (max error %s)"
                 % (call, err), err)
+    if call in ("default", "by_state") and spec["nP"]:
+        # the stand-alone sensitivity(sens, t, state): the sensitivities as the flat vector of the arrangement or in the documented
+        # (states x parameters) matrix form, the same J*S + G either way
+        nS_, nP_ = spec["nS"], spec["nP"]
+        bs = call == "by_state"
+        sflat = z[nS_:]
+        smat = sflat.reshape(nS_, nP_) if bs else sflat.reshape(nS_, nP_, order="F")
+        for form, arg in (("flat vector", sflat.copy()), ("matrix", smat.copy())):
+            try:
+                got = np.asarray(m.sensitivity(arg, 0.0, z[:nS_], by_state=True) if bs else m.sensitivity(arg, 0.0, z[:nS_]), dtype=float).ravel()
+            except Exception as e:      # noqa: B902
+                return ("rhs-" + CLS[call], "sensitivity(sens as %s%s) raised %s: %s" % (form, ", by_state=True" if bs else "", type(e).__name__, e), None)
+            if got.shape != want[nS_:].shape or not np.all(np.abs(got - want[nS_:]) <= RHS_RTOL * (1 + np.abs(want).max())):
+                return ("rhs-" + CLS[call], "sensitivity(sens as %s%s) differs from J*S+G in the documented layout (S[i, j] = dx_i/dtheta_j): %s vs %s"
+                        % (form, ", by_state=True" if bs else "", got.tolist()[:6], want[nS_:].tolist()[:6]), None)
     try:
         Jc = np.asarray(jac(m, z, 0.0), dtype=float)
     except Exception as e:      # noqa: B902
